@@ -434,6 +434,10 @@ func (fd *Client) Query(input *dynamodb.QueryInput) (*dynamodb.QueryOutput, erro
 
 	indexName := aws.StringValue(input.IndexName)
 
+	if _, ok := table.Indexes[indexName]; indexName != "" && !ok {
+		return nil, awserr.New("ValidationException", "The table does not have the specified index: "+indexName, nil)
+	}
+
 	if input.ScanIndexForward == nil {
 		input.ScanIndexForward = aws.Bool(true)
 	}
@@ -485,6 +489,10 @@ func (fd *Client) Scan(input *dynamodb.ScanInput) (*dynamodb.ScanOutput, error) 
 	}
 
 	indexName := aws.StringValue(input.IndexName)
+
+	if _, ok := table.Indexes[indexName]; indexName != "" && !ok {
+		return nil, awserr.New("ValidationException", "The table does not have the specified index: "+indexName, nil)
+	}
 
 	items, lastKey := table.SearchData(core.QueryInput{
 		Index:                     indexName,
